@@ -4,18 +4,30 @@ import (
 	"bytes"
 	"compress/zlib"
 	"io"
+	"sync"
 )
 
 func zlibNewReader(r io.Reader) (io.ReadCloser, error) { return zlib.NewReader(r) }
 
-// Deflate compresses b with the standard library's zlib.
+var zwPools sync.Map // level -> *sync.Pool of *zlib.Writer
+
+// Deflate compresses b with the standard library's zlib (writers are pooled per level:
+// creating one costs about a megabyte of clearing).
 func Deflate(b []byte, level int) []byte {
 	if level == 0 {
 		level = zlib.DefaultCompression
 	}
+	pi, _ := zwPools.LoadOrStore(level, &sync.Pool{})
+	pool := pi.(*sync.Pool)
 	var out bytes.Buffer
-	w, _ := zlib.NewWriterLevel(&out, level)
+	w, _ := pool.Get().(*zlib.Writer)
+	if w == nil {
+		w, _ = zlib.NewWriterLevel(&out, level)
+	} else {
+		w.Reset(&out)
+	}
 	w.Write(b)
 	w.Close()
+	pool.Put(w)
 	return out.Bytes()
 }
